@@ -271,7 +271,7 @@ fn dfs(rep: &mut Report, ck: &mut Checker, c: &CompressorOxide, spec: &Spec, seq
 }
 
 /// the first DEEP_SUBJECTS subjects are also enumerated to depth 4 in the thorough tier
-const DEEP_SUBJECTS: usize = 4;
+const DEEP_SUBJECTS: usize = 6;
 
 fn subjects(rng: &mut Rng) -> Vec<Vec<u8>> {
     vec![Vec::new(), vec![b'z'], vec![b'a'; 300], rng.bytes(100), data::gen(rng, 11, 3000), data::gen(rng, 7, 1500)]
@@ -333,8 +333,9 @@ pub fn run(ctx: &Ctx, rep: &mut Report) {
     // depth 3 over every subject (quick and thorough); thorough adds depth 4 over the four small
     // subjects, one case per (subject, config, first action, second action)
     let n3 = (subs.len() * CONFIGS.len() * 48) as u64;
-    let n4 = if ctx.thorough() { (DEEP_SUBJECTS * CONFIGS.len() * 48 * 48) as u64 } else { 0 };
-    let n_rand = ctx.n(3000, 100_000);
+    let deep = ctx.thorough();
+    let n4 = if deep { (DEEP_SUBJECTS * CONFIGS.len() * 48 * 48) as u64 } else { 0 };
+    let n_rand = ctx.n(6000, 150_000);
     for k in ctx.cases(n3 + n4 + n_rand) {
         rep.cur_case = k;
         crate::ctx::begin_case(k);
@@ -365,7 +366,7 @@ pub fn run(ctx: &Ctx, rep: &mut Report) {
     }
     if ctx.only_case.is_none() && ctx.tier != crate::ctx::Tier::Tiny {
         rep.count("exhaustive_spaces");
-        let want = (subs.len() * CONFIGS.len()) as u64 * 48u64.pow(3) / 2 + if ctx.thorough() { (DEEP_SUBJECTS * CONFIGS.len()) as u64 * 48u64.pow(4) / 2 } else { 0 };
+        let want = (subs.len() * CONFIGS.len()) as u64 * 48u64.pow(3) / 2 + if deep { (DEEP_SUBJECTS * CONFIGS.len()) as u64 * 48u64.pow(4) / 2 } else { 0 };
         rep.gate("sequences_enumerated", want);
     }
 }
